@@ -71,7 +71,18 @@ pub enum Applied { Ok(Res), Panicked(String) }
 
 /// Apply one operation to the real objects. Panics are contained; the deliberate `SimUnwind`
 /// of a cancellation is not a panic of the library.
-pub fn apply_real(op: &Op, regs: &mut [Object; REGISTERS], maps: &mut [Option<CodeMap>; REGISTERS]) -> Applied {
+/// Keys are built in three ways, by position in the history: from a `&str` (inline when <= 16 bytes),
+/// from a `String` with spare capacity (heap-stored even when short), or grown past 16 bytes and
+/// truncated back (stays on the heap). How a key is stored must never be observable.
+pub fn mk_key(k: &str, style: usize) -> Key {
+    match style % 3 {
+        0 => Key::from(k),
+        1 => { let mut s = String::with_capacity(k.len() + 40); s.push_str(k); Key::from(s) }
+        _ => { let mut key = Key::from(k); key.push_str("0123456789abcdefXYZ"); key.truncate(k.len()); key }
+    }
+}
+
+pub fn apply_real(op: &Op, regs: &mut [Object; REGISTERS], maps: &mut [Option<CodeMap>; REGISTERS], salt: usize) -> Applied {
     // any operation invalidates the code map of the register it names (re-established below by from_parse / clone_to)
     let kept = match op { Op::CloneTo { r, .. } => maps[*r].clone(), _ => None };
     if !matches!(op, Op::CloneTo { .. }) { maps[op.reg()] = None; }
@@ -79,26 +90,26 @@ pub fn apply_real(op: &Op, regs: &mut [Object; REGISTERS], maps: &mut [Option<Co
     let mut pulled: Vec<KV> = vec![];
     let r = catch_unwind(AssertUnwindSafe(|| -> Res {
         match op {
-            Op::Push { r, k, v } => Res::Fresh(regs[*r].push(Key::from(k.as_str()), v.build())),
-            Op::PushEntry { r, k, v } => Res::Fresh(regs[*r].push_entry(Entry::new(Key::from(k.as_str()), v.build()))),
-            Op::PushFront { r, k, v } => Res::Fresh(regs[*r].push_front(Key::from(k.as_str()), v.build())),
-            Op::PushEntryFront { r, k, v } => Res::Fresh(regs[*r].push_entry_front(Entry::new(Key::from(k.as_str()), v.build()))),
+            Op::Push { r, k, v } => Res::Fresh(regs[*r].push(mk_key(k.as_str(), salt + k.len()), v.build())),
+            Op::PushEntry { r, k, v } => Res::Fresh(regs[*r].push_entry(Entry::new(mk_key(k.as_str(), salt + k.len()), v.build()))),
+            Op::PushFront { r, k, v } => Res::Fresh(regs[*r].push_front(mk_key(k.as_str(), salt + k.len()), v.build())),
+            Op::PushEntryFront { r, k, v } => Res::Fresh(regs[*r].push_entry_front(Entry::new(mk_key(k.as_str(), salt + k.len()), v.build()))),
             Op::Insert { r, k, v, c } => {
-                if let Some(it) = regs[*r].insert(Key::from(k.as_str()), v.build()) { some = true; pull_with(it, *c, &mut pulled); }
+                if let Some(it) = regs[*r].insert(mk_key(k.as_str(), salt + k.len()), v.build()) { some = true; pull_with(it, *c, &mut pulled); }
                 Res::Unit
             }
-            Op::InsertFront { r, k, v, c } => { some = true; let it = regs[*r].insert_front(Key::from(k.as_str()), v.build()); pull_with(it, *c, &mut pulled); Res::Unit }
+            Op::InsertFront { r, k, v, c } => { some = true; let it = regs[*r].insert_front(mk_key(k.as_str(), salt + k.len()), v.build()); pull_with(it, *c, &mut pulled); Res::Unit }
             Op::Remove { r, k, c } => { some = true; let it = regs[*r].remove(k.as_str()); pull_with(it, *c, &mut pulled); Res::Unit }
             Op::RemoveAt { r, i } => Res::RemovedAt(regs[*r].remove_at(*i).map(kv)),
             Op::RemoveUnique { r, k } => Res::Unique(match regs[*r].remove_unique(k.as_str()) { Ok(o) => Ok(o.map(kv)), Err(Duplicate(a, b)) => Err((kv(a), kv(b))) }),
             Op::Sort { r } => { regs[*r].sort(); Res::Unit }
             Op::FromVec { r, es } => {
-                let v: Vec<Entry> = es.iter().map(|(k, v)| Entry::new(Key::from(k.as_str()), v.build())).collect();
+                let v: Vec<Entry> = es.iter().map(|(k, v)| Entry::new(mk_key(k.as_str(), salt + k.len()), v.build())).collect();
                 regs[*r] = if es.len() % 2 == 0 { Object::from_vec(v) } else { Object::from(v) };
                 Res::Unit
             }
-            Op::FromIterEntries { r, es } => { regs[*r] = es.iter().map(|(k, v)| Entry::new(Key::from(k.as_str()), v.build())).collect::<Object>(); Res::Unit }
-            Op::FromIterPairs { r, es } => { regs[*r] = es.iter().map(|(k, v)| (Key::from(k.as_str()), v.build())).collect::<Object>(); Res::Unit }
+            Op::FromIterEntries { r, es } => { regs[*r] = es.iter().map(|(k, v)| Entry::new(mk_key(k.as_str(), salt + k.len()), v.build())).collect::<Object>(); Res::Unit }
+            Op::FromIterPairs { r, es } => { regs[*r] = es.iter().map(|(k, v)| (mk_key(k.as_str(), salt + k.len()), v.build())).collect::<Object>(); Res::Unit }
             Op::FromParse { r, es } => {
                 let mut text = String::new();
                 write_object_text(es, &mut text);
@@ -107,8 +118,19 @@ pub fn apply_real(op: &Op, regs: &mut [Object; REGISTERS], maps: &mut [Option<Co
                 maps[*r] = Some(map);
                 Res::Unit
             }
-            Op::ExtendEntries { r, es } => { regs[*r].extend(es.iter().map(|(k, v)| Entry::new(Key::from(k.as_str()), v.build()))); Res::Unit }
-            Op::ExtendPairs { r, es } => { regs[*r].extend(es.iter().map(|(k, v)| (Key::from(k.as_str()), v.build()))); Res::Unit }
+            Op::ExtendEntries { r, es } => { regs[*r].extend(es.iter().map(|(k, v)| Entry::new(mk_key(k.as_str(), salt + k.len()), v.build()))); Res::Unit }
+            Op::ExtendPairs { r, es } => { regs[*r].extend(es.iter().map(|(k, v)| (mk_key(k.as_str(), salt + k.len()), v.build()))); Res::Unit }
+            Op::ExtendPanicking { r, es, after, pairs } => {
+                // the caller's iterator fails (panics) after `after` items; the object must stay coherent
+                struct PanicAfter<I> { inner: I, left: usize }
+                impl<I: Iterator> Iterator for PanicAfter<I> {
+                    type Item = I::Item;
+                    fn next(&mut self) -> Option<I::Item> { if self.left == 0 { std::panic::panic_any(SimUnwind); } self.left -= 1; self.inner.next() }
+                }
+                if *pairs { regs[*r].extend(PanicAfter { inner: es.iter().map(|(k, v)| (mk_key(k.as_str(), salt + k.len()), v.build())), left: *after }); }
+                else { regs[*r].extend(PanicAfter { inner: es.iter().map(|(k, v)| Entry::new(mk_key(k.as_str(), salt + k.len()), v.build())), left: *after }); }
+                Res::Unit
+            }
             Op::ExtendFrom { r, s } => {
                 // bounded: repeated self-extension doubles the object; beyond MAX_ENTRIES the operation is skipped (in the model too)
                 if regs[*r].len() + regs[*s].len() <= MAX_ENTRIES { let src: Vec<Entry> = regs[*s].entries().to_vec(); regs[*r].extend(src); }
@@ -161,7 +183,7 @@ pub fn apply_real(op: &Op, regs: &mut [Object; REGISTERS], maps: &mut [Option<Co
         Ok(Res::Unit) if op.cancel().is_some() => Applied::Ok(Res::Removed { some, pulled }),
         Ok(res) => Applied::Ok(res),
         Err(p) => {
-            if p.is::<SimUnwind>() { Applied::Ok(Res::Removed { some, pulled }) }
+            if p.is::<SimUnwind>() { if matches!(op, Op::ExtendPanicking { .. }) { Applied::Ok(Res::Unit) } else { Applied::Ok(Res::Removed { some, pulled }) } }
             else if let Some(s) = p.downcast_ref::<&str>() { Applied::Panicked(s.to_string()) }
             else if let Some(s) = p.downcast_ref::<String>() { Applied::Panicked(s.clone()) }
             else { Applied::Panicked("<non-string panic payload>".into()) }
@@ -197,6 +219,7 @@ pub fn apply_model(op: &Op, ms: &mut [M; REGISTERS]) -> Exp {
         Op::Sort { r } => { model::sort(&mut ms[*r]); Exp::Unit }
         Op::FromVec { r, es } | Op::FromIterEntries { r, es } | Op::FromIterPairs { r, es } | Op::FromParse { r, es } => { ms[*r] = es.iter().map(|(k, v)| (k.clone(), v.build())).collect(); Exp::Unit }
         Op::ExtendEntries { r, es } | Op::ExtendPairs { r, es } => { ms[*r].extend(es.iter().map(|(k, v)| (k.clone(), v.build()))); Exp::Unit }
+        Op::ExtendPanicking { r, es, after, .. } => { let n = (*after).min(es.len()); ms[*r].extend(es[..n].iter().map(|(k, v)| (k.clone(), v.build()))); Exp::Unit }
         Op::ExtendFrom { r, s } => { if ms[*r].len() + ms[*s].len() <= MAX_ENTRIES { let src = ms[*s].clone(); ms[*r].extend(src); } Exp::Unit }
         Op::IterMutSet { r, i, v } => { if let Some(e) = ms[*r].get_mut(*i) { e.1 = v.build(); } Exp::Unit }
         Op::GetMutSet { r, k, pull, v } => {
@@ -416,7 +439,7 @@ pub fn run_c06(sc: &HistSc, st: &mut Stats) -> HistOutcome {
         // keeps the state before the operation at hand and adopts it if that is what the object did.
         let before_remove_unique: Option<M> = match op { Op::RemoveUnique { r, k } if model::positions(&ms[*r], k).len() >= 2 => Some(ms[*r].clone()), _ => None };
         let exp = apply_model(op, &mut ms);
-        let res = match apply_real(op, &mut regs, &mut maps) {
+        let res = match apply_real(op, &mut regs, &mut maps, step) {
             Applied::Ok(res) => res,
             Applied::Panicked(m) => return HistOutcome { violation: viol("c06.panic", step, op, format!("the operation panicked: {}", m)), outcome: d.finish(), nontrivial },
         };
@@ -434,6 +457,18 @@ pub fn run_c06(sc: &HistSc, st: &mut Stats) -> HistOutcome {
         }
         if let (Some(prev), Res::Unique(Err(_))) = (&before_remove_unique, &res) {
             if same_entries(&regs[r], prev) { ms[r] = prev.clone(); st.bump("probe.remove_unique_duplicate_left_object_untouched"); }
+        }
+        if let Op::ExtendPanicking { es, after, .. } = op {
+            // when the source iterator panicked, any prefix of the items it had yielded may have been
+            // kept (the current code keeps all of them); what must hold is coherence of entries and index
+            if *after <= es.len() {
+                let base = ms[r].len() - *after;
+                for j in (0..=*after).rev() {
+                    if regs[r].len() == base + j { let mut cand = ms[r].clone(); cand.truncate(base + j); if same_entries(&regs[r], &cand) { ms[r] = cand; break; } }
+                }
+                st.bump("cancel.extend_source_panicked");
+                nontrivial = true;
+            }
         }
         if let Err(m) = compare_result(op, &res, &exp) { return HistOutcome { violation: viol("c06.result", step, op, m), outcome: d.finish(), nontrivial }; }
         // entries of every register (the named one changed; the others must not have)
